@@ -119,6 +119,7 @@ REWRITES = {
     "fold_changes": ("re", r"(?s)changes\.into_iter\(\)\.fold\(self, \|mut acc, change\| \{.*?\n        \}\)", "fold_changes(self, changes)", "R13 for a closure: the fold over the text changes, whose step is verified separately as the lifted `update_step`, is replaced by a call of an external function (the steps applied in order)"),
     "map_or_else_some": ("map_or_else_some", "", "", "Option::map_or_else(d, Some) inlined as its std definition `match self { Some(v) => Some(v), None => d() }`"),
     "block_statements_loop": ("re", r"(?s)self\.statements\s*\.iter_mut\(\)\s*\.for_each\(\|stmt\| stmt\.analyze\(table\)\)", "analyze_statements_loop(&mut self.statements, table)", "R13: the loop over the statements of a block -> call of the external function with the loop's contract (every statement analysed in place with that table)"),
+    "operand_ne_int": ("re", r"\boperand_type != &DataType::Int\b", "!datatype_eq(operand_type, &DataType::Int)", "`!=` on two `&DataType` (PartialEq for references) written as the derived comparison it resolves to (R1)"),
     "box_as_ref": ("re", r"\bboxed\.as_ref\(\)", r"&**boxed", "Box::as_ref on &Box<T> replaced by its std body `&**self` (no vstd spec; generic over the allocator)"),
     "self_name_clone_to_callee": ("re", r"self\.name\.value\.clone\(\)", r"string_clone(&callee.value)", "captured field path `self.name` of the lifted loop body becomes the parameter `callee` (R6); String::clone -> shim"),
     "ref_ne": ("re", r"\barg_type != param_type\b", r"!datatype_eq(arg_type, param_type)", "`!=` on two `&DataType` (PartialEq for references) written as the derived comparison it resolves to"),
